@@ -165,7 +165,7 @@ pub fn normalise(ctx: &Ctx) {
             proto.push(rec(n, if k + 1 == attr { ty.clone() } else { Ty::Int { min: 0, max: 255 } }));
         }
     }
-    let vals = stored_values(&ty, ctx.tier_thorough);
+    let vals = stored_values(&ty, true);
     let points: Vec<Vec<Val>> = vals
         .iter()
         .map(|v| {
